@@ -213,6 +213,23 @@ package termincommittee
 //@   requires [addressed-to-b-as-leader-of-that-view] b.myMemberId == LeaderOf(b.committeeMembers, vcm.content.SignedHeader().View())
 //@   requires [unless-the-leader-already-passed-the-view] vcm.content.SignedHeader().View() >= b.State.view
 //@   ensures [L11.an-emitted-vote-is-acceptable-to-its-leader] AcceptsVote(b, vcm)
+// a NEW_VIEW emitted by elected leader a (the five send-site obligations O11.1.new-view.*) and delivered to member b of the
+// same committee whose view is not higher and that has not yet accepted a proposal for that view. Premises that are not
+// facts about a or b: A-QI (see above) and, when no vote carries a proof, b's environment (its registry hands out the
+// context of that view, nothing is cancelled meanwhile, its consumer approves the fresh block).
+//@ func lemmaC11NewView
+//@   props C11
+//@   requires TicOK(a) && TicOK(b) && nvm != nil && nvm.content != nil
+//@   requires [matching-state.same-committee-list-keys-instance-height] a.committeeMembers == b.committeeMembers && KeysAgree(a, b) && a.State.height == b.State.height && a.messageFactory.instanceId == b.messageFactory.instanceId
+//@   requires [matching-state.A-SPI-AGREE.block-commitment] forall ch int, cb interfaces.Block, cx Str :: Commits(a.blockUtils, ch, cb, cx) ==> Commits(b.blockUtils, ch, cb, cx)
+//@   requires [emitted-by-a] NVHeaderGood(a, nvm) && NVVotesGood(a, nvm.content.SignedHeader()) && NVProposalGood(a, nvm) && (NVQI(nvm) ==> NVLockAllGood(a, nvm)) && NVFreshGood(a, nvm)
+//@   requires [premise.A-QI] NVQI(nvm)
+//@   requires [unless-the-peer-view-is-higher-or-it-accepted-a-proposal-for-that-view] b.State.view <= nvm.content.SignedHeader().View() && !ppStored[nvm.content.SignedHeader().View()]
+//@   requires [premise.peer-environment-for-a-fresh-block] (forall lk :: 0 <= lk && lk < seq_len(nvm.content.SignedHeader(), "ViewChangeConfirmations") ==> !HasProof(seq_at(nvm.content.SignedHeader(), "ViewChangeConfirmations", lk))) ==>
+//@     | !b.State.Contexts.shutdown && (b.State.Contexts.newestHvCanceledOlder == nil || !Older(b.State.height, nvm.content.SignedHeader().View(), b.State.Contexts.newestHvCanceledOlder.height, b.State.Contexts.newestHvCanceledOlder.view))
+//@     | && (forall lc context.Context :: StaysLive(lc))
+//@     | && Validates(b.blockUtils, nvm.content.SignedHeader().BlockHeight(), LeaderOf(b.committeeMembers, nvm.content.SignedHeader().View()), nvm.block, nvm.content.Message().SignedHeader().BlockHash(), b.prevBlock)
+//@   ensures [L11.an-emitted-new-view-is-adopted-by-the-peer] AcceptsNewView(b, nvm)
 //@ func lemmaC11Commit
 //@   props C11
 //@   requires TicOK(a) && TicOK(b) && cm != nil && cm.content != nil
